@@ -106,7 +106,8 @@ func buildC14(c C14Case) (gen.ProgCase, string) {
 		case "text":
 			body = append(body, ref.Cmd{K: "text", Text: src})
 		case "msgtext":
-			body = append(body, ref.Cmd{K: "msg", Desc: "d" + l.S[:min(len(l.S), 3)], Body: []ref.Cmd{{K: "text", Text: src}}})
+			// (the description and the meaning carry the literal too: they must never reach the script unescaped)
+			body = append(body, ref.Cmd{K: "msg", Desc: l.S, Meaning: strings.ToValidUTF8(l.S, "?"), Body: []ref.Cmd{{K: "text", Text: src}}})
 			if strings.TrimSpace(ref.NormalizeText(src)) == "" && ref.NormalizeText(src) != "" {
 				// whitespace-only message text is still text
 			}
